@@ -10,6 +10,13 @@ integers.  So every threshold t is converted here, once, with exact rational ari
 (`fractions`), into  B = min { N >= 0 : Span*N/(Z*2^17) >= t }  per kind and parity
 (4 x 58 = 232 integers); then  NL(N) = 59 - #{k : |N| >= B_k}.
 
+The last row is different: DO-260B A.1.7.2 d DEFINES  NL = 2 for |lat| = 87  and  NL = 1
+for |lat| > 87  (the closed formula has no transition there), so its bound is strict,
+B_58 = min { N : Rlat(N) > 87 }.  87 = 6 * 14.5 = 1.5 * 58 is reachable on the grid of even
+reports (N = 14.5 * 2^17 airborne, 58 * 2^17 surface) and exactly representable in binary
+floating point in every order of evaluation, so it is not a rounding tie and is NOT in
+the tight sets.  No other row can be hit exactly (smallest distance reported below).
+
 Also generated:
   * NLThreshMicro/NLThreshCenti: the decimal table itself (t = Micro*1e-6 + Centi*1e-8),
     used for NL of a latitude logged in micro-degrees;
@@ -139,11 +146,19 @@ def generate():
             for t in thr:
                 x = t * den / span
                 b = -((-x.numerator) // x.denominator)       # ceil
-                # check 3
-                assert rlat(b) >= t > rlat(b - 1)
+                if t == 87:
+                    # NL(+-87) = 2 by definition: strict bound
+                    b = x.numerator // x.denominator + 1
+                    assert rlat(b) > t >= rlat(b - 1)
+                else:
+                    # check 3
+                    assert rlat(b) >= t > rlat(b - 1)
+                    assert rlat(b) != t, "a threshold other than 87 is hit exactly"
                 bs.append(b)
                 for n in (b - 1, b):
                     gap = abs(rlat(n) - t)
+                    if gap == 0 and t == 87:
+                        continue                              # exact, not a rounding tie
                     if gap <= TIGHT_DEG:
                         ts.add(n)
                     elif min_gap is None or gap < min_gap[0]:
@@ -152,7 +167,7 @@ def generate():
             assert bs[-1] <= z * C17 * 90 // span
             bounds[(kname, i)] = bs
             tight[(kname, i)] = sorted(ts)
-    notes.append(f"check 3: 232 bounds satisfy Rlat(B) >= t > Rlat(B-1) exactly")
+    notes.append(f"check 3: 228 bounds satisfy Rlat(B) >= t > Rlat(B-1) exactly and never Rlat(B) = t; the 4 bounds of row 58 satisfy Rlat(B) > 87 >= Rlat(B-1)")
     notes.append("smallest |Rlat(N) - t| outside the tight sets: %.3e deg (%s parity %d, N = %d, t = %s)"
                  % (float(min_gap[0]), min_gap[1], min_gap[2], min_gap[3], min_gap[4]))
 
@@ -173,7 +188,8 @@ def generate():
     L.append("(* regenerates and diffs it.  NL table of DO-260B A.1.7.2 d / 1090-WP-9-14:     *)")
     L.append("(* the 58 transition latitudes t_k (NL drops from 60-k to 59-k at |lat| = t_k)   *)")
     L.append("(* and, derived from them with exact rational arithmetic, the integer bounds    *)")
-    L.append("(*   B_k = min { N >= 0 : Span * N / (Z * 2^17) >= t_k }                         *)")
+    L.append("(*   B_k = min { N >= 0 : Span * N / (Z * 2^17) >= t_k }   (k < 58)                *)")
+    L.append("(*   B_58 = min { N : Span * N / (Z * 2^17) > 87 }: NL(+-87) = 2 by definition      *)")
     L.append("(* on the CPR latitude count N (Span = 360 airborne, 90 surface; Z = 60 - i).   *)")
     import textwrap
     for n in notes:
